@@ -210,7 +210,7 @@ PROPERTIES = {
         "rule": "rapidcheck, three subs. 'reconstruct': closed polyhedra with polygonal faces (box, n-prism, bipyramid, icosphere, ellipsoid, "
                 "non-convex L-prism, triangulated variants), per-face winding none / some / all reversed, rigid placement and um..x250 scale, "
                 "l_min / diameter in [0.04, 0.16], triangulation on (4/5) or off, written to an input file and loaded through "
-                "simulation_initializer with seeded RNGs (hook H2). 'poisson': the sampling alone, pairwise spacing and on-surface "
+                "simulation_initializer with seeded RNGs (hook H2). 'coarse': the hostile corner - L-prisms, thin plates, flat or needle-like bipyramids and sharp wedges (polygon angles down to 5 degrees) with l_min between 0.25 and 1.1 of the smallest feature, so that the bounded retries are used up; only 'a valid closed surface or a clean failure' is judged there (a flat double-sided sheet for an input thinner than l_min has no inside: counted, orientation not judged). 'poisson': the sampling alone, pairwise spacing and on-surface "
                 "distance by brute force. 'holes': ball-pivoting hole filling driven through the bpa_tester friend on icospheres with 1-8 "
                 "removed triangles / quads. Non-trivial = a successful reconstruction / a cloud of >= 10 samples / a filled hole; distinct = hash of the case.",
         "min_nontrivial": 30,
@@ -221,6 +221,8 @@ PROPERTIES = {
                         "polygons are planar and convex (the non-convex L-prism is built from convex faces)"],
         "jobs": [J("C13_reconstruct", subs=["reconstruct"], quick={"cases": 12, "shards": 12, "max_size": 40}, thorough={"cases": 600, "shards": 16, "max_size": 60},
                    env={"VERIF_TMP": "/verif/build/run"}, threads=2),
+                 J("C13_reconstruct", subs=["coarse"], quick={"cases": 40, "shards": 4, "max_size": 40}, thorough={"cases": 2000, "shards": 8, "max_size": 60},
+                   env={"VERIF_TMP": "/verif/build/run"}),
                  J("C13_reconstruct", subs=["poisson"], quick={"cases": 25, "shards": 2, "max_size": 40}, thorough={"cases": 500, "shards": 8, "max_size": 60},
                    env={"VERIF_TMP": "/verif/build/run"}, threads=4),
                  J("C13_reconstruct", subs=["holes"], quick={"cases": 400, "shards": 2, "max_size": 40}, thorough={"cases": 20000, "shards": 4, "max_size": 60},
@@ -244,16 +246,22 @@ PROPERTIES = {
         "rule": "rapidcheck: tissues of 2-5 level-1 cells (chain / cluster / inside an ECM shell / nucleus in a cell / apart; all-epithelial or "
                 "mixed classes) a few sizes from the origin; translation classes {0.4 size, 10, 100, 1000 sizes, across the origin, integer "
                 "multiples of the contact-grid voxel}; 10-45 iterations, growth on/off, dt in {5e-4, 1e-3, 2e-3}; four real solvers in "
-                "lock-step (reference, translated, two noise runs), 1 thread. Non-trivial = more than one cell or couplings, and a translation "
-                "other than the 0.4-size class; distinct = hash of the case.",
+                "lock-step (reference, translated, two noise runs), 1 thread. Sub 'division': one division (real cell_divider::divide_cell, "
+                "identical sampling seeds through hook H2) of a cell in the state the solver divides cells in - caches filled by the previous force "
+                "computation, nodes swollen / stretched by 0-6 % since - against the division of its translated copy (0.4 .. 1000 sizes, across the "
+                "origin) and of two noise copies: same outcome, same volume split (2 % or 20x the noise response), daughters at the translated "
+                "positions (5 % of the size). Non-trivial = more than one cell or couplings (lockstep) / a completed pair of divisions (division), and "
+                "a translation other than the 0.4-size class; distinct = hash of the case.",
         "min_nontrivial": 10,
         "assumptions": ["position tolerance = max(1e-12 s, 1e4 x the response of the reference run to representation-error-sized coordinate "
                         "noise, 64 F eps (1 + D/s)^3 s per iteration); a case whose noise response exceeds 1e-9 s is inconclusive",
                         "a discrete divergence is reported only if neither noise run diverges and no edge length / triangle score of the "
                         "reference state is within 1e-6 of its threshold (otherwise counted as tie_inconclusive)"],
-        "jobs": [J("C14_translate", quick={"cases": 6, "shards": 12, "max_size": 40}, thorough={"cases": 300, "shards": 16, "max_size": 60},
+        "jobs": [J("C14_translate", subs=["lockstep"], quick={"cases": 6, "shards": 12, "max_size": 40}, thorough={"cases": 300, "shards": 16, "max_size": 60},
                    env={"VERIF_TMP": "/verif/build/run"}),
-                 J("C14_translate", variant="san-dm1", quick={"cases": 6, "shards": 4, "max_size": 40}, thorough={"cases": 150, "shards": 8, "max_size": 60},
+                 J("C14_translate", subs=["lockstep"], variant="san-dm1", quick={"cases": 6, "shards": 4, "max_size": 40}, thorough={"cases": 150, "shards": 8, "max_size": 60},
+                   env={"VERIF_TMP": "/verif/build/run"}),
+                 J("C14_translate", subs=["division"], quick={"cases": 15, "shards": 8, "max_size": 40}, thorough={"cases": 1200, "shards": 16, "max_size": 60},
                    env={"VERIF_TMP": "/verif/build/run"})],
     },
     "C15": {
